@@ -296,15 +296,12 @@ func newCache(cfg Cfg, s *Scenario) cacheAPI {
 	if err != nil {
 		panic(err)
 	}
-	// Atomic cells whose operations need no schedule point: the striped metric counters (their
-	// adds commute; laws are judged at drained states), and cells that no client thread of this
-	// scenario can write (a load of a value nobody writes concurrently commutes with everything).
-	ex := map[uintptr]struct{}{}
-	if m := c.Metrics(); m != nil {
-		for _, p := range ristretto.VerifMetricCells(m) {
-			ex[uintptr(p)] = struct{}{}
-		}
-	}
+	// Which atomic operations are schedule points. A load of a cell that no client thread of
+	// this scenario can write commutes with everything, so the closed flag / max-cost cell are
+	// points only when some thread calls Close / UpdateMaxCost. Without metrics every other
+	// atomic operation is a point; with metrics only those two cells are (the 2816 striped
+	// metric counters are performed atomically without a point: their adds commute and the
+	// metric laws are judged at drained states).
 	hasClose, hasUpd := false, false
 	if s != nil {
 		for _, th := range s.Threads {
@@ -315,13 +312,24 @@ func newCache(cfg Cfg, s *Scenario) cacheAPI {
 		}
 	}
 	closed, maxc := c.Cells()
-	if !hasClose {
-		ex[uintptr(closed)] = struct{}{}
+	set := map[uintptr]struct{}{}
+	if c.Metrics() == nil {
+		if !hasClose {
+			set[uintptr(closed)] = struct{}{}
+		}
+		if !hasUpd {
+			set[uintptr(maxc)] = struct{}{}
+		}
+		vsched.ExemptAtomics(set)
+	} else {
+		if hasClose {
+			set[uintptr(closed)] = struct{}{}
+		}
+		if hasUpd {
+			set[uintptr(maxc)] = struct{}{}
+		}
+		vsched.OnlyAtomics(set)
 	}
-	if !hasUpd {
-		ex[uintptr(maxc)] = struct{}{}
-	}
-	vsched.ExemptAtomics(ex)
 	return c
 }
 
